@@ -1243,6 +1243,16 @@ def cas_primitive_reports_loss(ctx, rule):
         norm(U.kwarg(calls[0], 'specimen') or ast.Constant(0)) == \
         f.params[1] and \
         norm(U.kwarg(calls[0], 'values') or ast.Constant(0)) == f.params[2]
+    # ... and nothing is allowed to turn "no row matched" into a success
+    # (oslo.db: handle_failure / process_query hooks of update_on_match)
+    if okc:
+        extra = {k.arg for k in calls[0].keywords} - {
+            'specimen', 'surrogate_key', 'values', 'attempts',
+            'include_only'}
+        if extra:
+            okc = False
+            why = 'the conditional UPDATE is given %s' % sorted(
+                map(str, extra))
     rule.check(ok and okc, ctx.construct(f, extra='None when no row matched'),
                'update_on_match can return a row although the conditional '
                'UPDATE matched nothing (%s): the loser of a compare-and-swap '
